@@ -295,7 +295,7 @@ def run(ch, ctx, fault=None):
             style = ch.pick("style", styles)
             cls = {"block": ti_image.BlockImage, "kitty": ti_image.KittyImage,
                    "iterm2": ti_image.ITerm2Image}[style]
-            animated = ch.bool("animated", 0.7)
+            animated = ch.bool("animated", 0.7) or bool(script)
             n = ch.int("nframes", 2, 4) if animated else 1
             sw, sh = ch.int("sw", 1, 16), ch.int("sh", 1, 16)
             fmt = ch.pick("fmt", ("GIF", "WEBP", "WEBP")) if animated else "PNG"
@@ -389,6 +389,43 @@ def run(ch, ctx, fault=None):
                   {"op": desc, "frame": d["image"].tell(), "got": got[:160],
                    "expected": ref[:160]}, "format")
 
+        def do_setsize(d):
+            """one size change of an image (and of its twin)"""
+            hist = d.setdefault("size_history", [d["size0"]])
+            kind_ = ch.pick("szk", ("width", "both", "member", "earlier", "earlier"))
+            if kind_ == "earlier":
+                # going back to a size used before (A -> B -> A) is what exposes
+                # stale cache entries
+                prev = ch.pick("prev", hist)
+                d["image"].size = prev
+                desc = "%s.size = %r (used before)" % (d["desc"], prev)
+            elif kind_ == "width":
+                v = ch.int("nw", 1, min(8, cols))
+                d["image"].set_size(width=v)
+                desc = "%s.set_size(width=%d)" % (d["desc"], v)
+            elif kind_ == "both":
+                v = (ch.int("nw", 1, min(8, cols)), ch.int("nh", 1, 4))
+                d["image"].set_size(*v)
+                desc = "%s.set_size%s" % (d["desc"], v)
+            else:
+                mname = ch.pick("mname", ("FIT", "AUTO", "ORIGINAL", "FIT_TO_WIDTH"))
+                d["image"].size = getattr(ti_image.Size, mname)
+                desc = "%s.size = Size.%s" % (d["desc"], mname)
+            try:
+                big = d["image"].rendered_width * d["image"].rendered_height > 300
+            except Exception:
+                big = False
+            if big:       # keep worlds cheap: every PIL step is a fault position
+                d["image"].size = ti_image.Size.FIT
+                desc += " (too large for this world: back to Size.FIT)"
+            d["size0"] = d["image"].size
+            if d["size0"] not in hist:
+                hist.append(d["size0"])
+            if "twin" in d:
+                d["twin"].size = d["image"].size
+            ctx.probe("image_size_changed_mid_iteration")
+            return desc
+
         def do_next(itd):
             """one next() on a live iterator, checked against the frame model"""
             im = itd["img"]
@@ -457,21 +494,31 @@ def run(ch, ctx, fault=None):
             return desc
 
         n_ops = ch.int("n_ops", 3, ctx.cfg["max_ops"])
+        # some histories open with a fixed recipe: an animated image, a caching iterator over
+        # it, one whole pass, then a resize followed by a second whole pass
+        script = ["construct", "iterate", "pass", "resized_pass"] \
+            if ch.bool("cached_resize_script", 0.2) else []
+        if script:
+            n_ops = max(n_ops, 5)
+            ctx.probe("cached_resize_script")
         for i in range(n_ops):
             choices_ = [(3 if len(imgs) < 2 else 0, "construct")]
             if imgs:
                 choices_ += [(2, "str"), (2, "format"), (2, "draw"), (3, "iterate"), (1, "nframes"),
                              (1, "imgseek"), (1, "imgclose"), (1, "with"), (2, "setsize")]
             if iters:
-                choices_ += [(9, "next"), (4, "pass"), (3, "seek"), (2, "itclose"), (2, "abandon")]
+                choices_ += [(9, "next"), (4, "pass"), (4, "resized_pass"), (3, "seek"), (2, "itclose"), (2, "abandon")]
             op = ch.weighted("op", [c for c in choices_ if c[0]])
+            if script:
+                op = script.pop(0) if (imgs or script[0] == "construct") \
+                    and (iters or script[0] in ("construct", "iterate")) else "construct"
             desc = op
             site = op
             exc = None
             fired0 = k.fault_done
-            d = ch.pick("img", imgs) if imgs and op not in ("construct", "next", "pass", "seek",
+            d = ch.pick("img", imgs) if imgs and op not in ("construct", "next", "pass", "seek", "resized_pass",
                                                            "itclose", "abandon") else None
-            itd = ch.pick("iter", iters) if iters and op in ("next", "pass", "seek", "itclose",
+            itd = ch.pick("iter", iters) if iters and op in ("next", "pass", "seek", "itclose", "resized_pass",
                                                             "abandon") else None
             expected_http_failure = None
             try:
@@ -509,6 +556,9 @@ def run(ch, ctx, fault=None):
                         spec += ch.pick("isspec", ("", "+L", "+W"))
                     cached = ch.pick("cached", (False, True, 100))
                     how = ch.pick("how", ("ctor", "ctor", "iter"))
+                    if script:
+                        # every frame is cached and there is a second pass to serve from it
+                        repeat, cached, how = (2 if repeat == 1 else repeat), cached or True, "ctor"
                     desc = "%s(%s, repeat=%d, spec=%r, cached=%r)" % (
                         "ImageIterator" if how == "ctor" else "iter", d["desc"], repeat, spec,
                         cached)
@@ -524,39 +574,20 @@ def run(ch, ctx, fault=None):
                 elif op == "setsize":
                     if d["image"].closed:
                         continue
-                    hist = d.setdefault("size_history", [d["size0"]])
-                    kind_ = ch.pick("szk", ("width", "both", "member", "earlier", "earlier"))
-                    if kind_ == "earlier":
-                        # going back to a size used before (A -> B -> A) is what exposes
-                        # stale cache entries
-                        prev = ch.pick("prev", hist)
-                        d["image"].size = prev
-                        desc = "%s.size = %r (used before)" % (d["desc"], prev)
-                    elif kind_ == "width":
-                        v = ch.int("nw", 1, min(8, cols))
-                        d["image"].set_size(width=v)
-                        desc = "%s.set_size(width=%d)" % (d["desc"], v)
-                    elif kind_ == "both":
-                        v = (ch.int("nw", 1, min(8, cols)), ch.int("nh", 1, 4))
-                        d["image"].set_size(*v)
-                        desc = "%s.set_size%s" % (d["desc"], v)
-                    else:
-                        mname = ch.pick("mname", ("FIT", "AUTO", "ORIGINAL", "FIT_TO_WIDTH"))
-                        d["image"].size = getattr(ti_image.Size, mname)
-                        desc = "%s.size = Size.%s" % (d["desc"], mname)
-                    try:
-                        big = d["image"].rendered_width * d["image"].rendered_height > 300
-                    except Exception:
-                        big = False
-                    if big:       # keep worlds cheap: every PIL step is a fault position
-                        d["image"].size = ti_image.Size.FIT
-                        desc += " (too large for this world: back to Size.FIT)"
-                    d["size0"] = d["image"].size
-                    if d["size0"] not in hist:
-                        hist.append(d["size0"])
-                    if "twin" in d:
-                        d["twin"].size = d["image"].size
-                    ctx.probe("image_size_changed_mid_iteration")
+                    desc = do_setsize(d)
+                elif op == "resized_pass":
+                    # the image is resized between two passes of a live iterator: cached
+                    # frames of the old size are re-rendered on the way
+                    d = itd["img"]
+                    if itd.get("orphan") or d["image"].closed:
+                        continue
+                    site = "next"
+                    desc = do_setsize(d)
+                    ctx.probe("resize_then_whole_pass")
+                    for _ in range(d["n"]):
+                        desc = do_next(itd)
+                        if itd["closed"]:
+                            break
                 elif op == "nframes":
                     desc = "%s.n_frames" % d["desc"]
                     if not d["image"].closed:
@@ -613,6 +644,7 @@ def run(ch, ctx, fault=None):
                         # the last seek counts
                         first = ch.int("spos0", 0, im["n"] - 1)
                         itd["it"].seek(first)
+                        itd["pos"] = first      # (it stands if the second one is rejected)
                         desc = "%s.seek(%d); .seek(%d)" % (itd["desc"], first, pos)
                         ctx.probe("two_seeks_without_next")
                     if itd.get("orphan"):
@@ -715,7 +747,7 @@ def run(ch, ctx, fault=None):
                             ctx.probe("fault_in_" + fk)
                         if fault["kind"] == "tmp.write":
                             ctx.probe("temp_write_failed")
-                    if op in ("next", "pass") and itd is not None:
+                    if op in ("next", "pass", "resized_pass") and itd is not None:
                         itd["closed"] = True
                         itd["errored"] = True
                 else:
